@@ -72,11 +72,11 @@ enum Family {
 
 fn family_of(e: Enc) -> Family {
     match e {
-        Enc::AuxCf | Enc::ExpCf => Family::Cf,
+        Enc::AuxCf | Enc::ExpCf | Enc::HelperCf => Family::Cf,
         Enc::AuxAdm => Family::Adm,
-        Enc::AuxCo | Enc::ExpCo | Enc::Hybrid => Family::Co,
+        Enc::AuxCo | Enc::ExpCo | Enc::Hybrid | Enc::HelperCo => Family::Co,
         Enc::Stable => Family::St,
-        Enc::None => unreachable!(),
+        Enc::None | Enc::Default => unreachable!(),
     }
 }
 
@@ -89,7 +89,9 @@ fn in_family(rs: &RefSem, f: Family, s: u32) -> bool {
     }
 }
 
-pub const ENCODERS: [Enc; 7] = [
+pub const ENCODERS: [Enc; 9] = [
+    Enc::HelperCo,
+    Enc::HelperCf,
     Enc::AuxCf,
     Enc::AuxAdm,
     Enc::AuxCo,
